@@ -2,780 +2,11 @@
 package c01
 
 import (
-	"context"
-	"encoding/json"
-	"fmt"
-	"hash/fnv"
-	"sync"
-	"sync/atomic"
 	"testing"
-	"testing/synctest"
-	"time"
 
-	"github.com/centrifugal/centrifuge"
 	"github.com/centrifugal/centrifuge/verifx/kit"
-	"github.com/centrifugal/protocol"
+	"github.com/centrifugal/centrifuge/verifx/posdeliv"
 )
-
-const channel = "c01:stream"
-
-// pubRec is one Node.Publish call as seen at the boundary.
-type pubRec struct {
-	ID      string
-	Tag     string
-	CallSeq int64
-	RetSeq  int64
-	Offset  uint64
-	Epoch   string
-	Err     string
-}
-
-type pubLog struct {
-	mu   sync.Mutex
-	recs []*pubRec
-}
-
-func (l *pubLog) snapshot() []*pubRec {
-	l.mu.Lock()
-	defer l.mu.Unlock()
-	return append([]*pubRec(nil), l.recs...)
-}
-
-type scenario struct {
-	c        *kit.Case
-	w        *kit.World
-	node     *centrifuge.Node
-	fb       *kit.FaultBroker
-	log      *pubLog
-	histSize int
-	histTTL  time.Duration
-	pubSeq   atomic.Int64
-	// per-connection hook configuration
-	mu       sync.Mutex
-	hookCfg  map[*centrifuge.Client]*connHooks
-	racerRan atomic.Int64
-}
-
-type connHooks struct {
-	idx        int
-	positioned bool
-	racePoint  string // P-window point at which a racing publish is launched ("" = none)
-	raced      map[string]bool
-	salt       uint64
-}
-
-func (s *scenario) publish(producer string, tag string) *pubRec {
-	n := s.pubSeq.Add(1)
-	rec := &pubRec{ID: fmt.Sprintf("%s-%d", producer, n), Tag: tag}
-	data, _ := json.Marshal(map[string]string{"id": rec.ID})
-	rec.CallSeq = s.w.Seq()
-	s.log.mu.Lock()
-	s.log.recs = append(s.log.recs, rec)
-	s.log.mu.Unlock()
-	opts := []centrifuge.PublishOption{centrifuge.WithHistory(s.histSize, s.histTTL)}
-	if tag != "" {
-		opts = append(opts, centrifuge.WithTags(map[string]string{"t": tag}))
-	}
-	res, err := s.node.Publish(channel, data, opts...)
-	s.log.mu.Lock()
-	rec.RetSeq = s.w.Seq()
-	if err != nil {
-		rec.Err = err.Error()
-	} else {
-		rec.Offset, rec.Epoch = res.Offset, res.Epoch
-	}
-	s.log.mu.Unlock()
-	return rec
-}
-
-func hashDelay(salt uint64, point string, max int) time.Duration {
-	h := fnv.New64a()
-	_, _ = h.Write([]byte(point))
-	v := (h.Sum64() ^ salt) * 0x9e3779b97f4a7c15
-	return time.Duration(v%uint64(max+1)) * time.Millisecond
-}
-
-// pWindow reports whether a yield point lies inside the window in which a
-// positioned subscribe holds its recovery buffer lock.
-func pWindow(point string) bool {
-	switch point {
-	case "sub.afterMerge", "sub.beforeReply", "sub.afterReply", "sub.afterCommit", "ssub.beforeCommit", "ssub.afterCommit", "connect.beforeReply", "connect.afterReply":
-		return true
-	}
-	return false
-}
-
-func (s *scenario) hook(point string, cl *centrifuge.Client, ch string) {
-	if cl == nil {
-		return
-	}
-	s.mu.Lock()
-	cfg := s.hookCfg[cl]
-	s.mu.Unlock()
-	if cfg == nil {
-		return
-	}
-	if pWindow(point) && cfg.positioned {
-		// Inside the buffer-lock window: never sleep. Launch a racing publish once
-		// and busy-yield until it has entered the library.
-		if cfg.racePoint == point {
-			s.mu.Lock()
-			done := cfg.raced[point]
-			cfg.raced[point] = true
-			s.mu.Unlock()
-			if !done {
-				var entered atomic.Bool
-				go func() {
-					entered.Store(true)
-					s.publish(fmt.Sprintf("racer%d", cfg.idx), "a")
-					s.racerRan.Add(1)
-				}()
-				kit.SpinUntil(entered.Load, 10000)
-				kit.Yield(300)
-			}
-		}
-		return
-	}
-	switch point {
-	case "sub.afterAddSub", "sub.afterRecover", "sub.beforeReply", "sub.afterReply", "sub.afterCommit", "connect.afterAddClient", "connect.beforeReply", "connect.afterReply", "ssub.beforeCommit", "ssub.afterCommit":
-		if d := hashDelay(cfg.salt, point, 12); d > 0 {
-			time.Sleep(d)
-		}
-	}
-}
-
-// ---------------------------------------------------------------------------------------------
-// observation of one subscription incarnation
-
-type incarnation struct {
-	Conn      int
-	Kind      string // client | connect | server
-	StartSeq  int64
-	Base      uint64
-	Epoch     string
-	Recovered bool
-	Recover   bool
-	Filter    string // "" or tag value admitted
-	Delivered []uint64
-	IDs       []string
-	EndSeq    int64
-	EndCode   uint32
-	EndKind   string // unsubscribe-reply | unsubscribe-push | disconnect | close | ""
-}
-
-func payloadID(data []byte) string {
-	var m map[string]string
-	if json.Unmarshal(data, &m) == nil {
-		return m["id"]
-	}
-	return ""
-}
-
-type connSpec struct {
-	idx        int
-	kind       string // client | connect | server
-	proto      centrifuge.ProtocolType
-	uni        bool
-	recovery   bool // EnableRecovery (else positioning only)
-	filter     string
-	conn       *kit.Conn
-	subIDs     map[uint32]subReq
-	unsubIDs   map[uint32]bool
-	lastPos    centrifuge.StreamPosition
-	havePos    bool
-	mu         sync.Mutex
-	connectReq *protocol.ConnectRequest
-	// serverSubs lists, per transport, the successful Client.Subscribe calls in order.
-	serverSubs map[*kit.RecTransport][]subReq
-}
-
-type subReq struct {
-	recover bool
-	offset  uint64
-	epoch   string
-}
-
-// fold turns the frames a connection received into subscription incarnations.
-func fold(cs *connSpec, t *kit.RecTransport, frames []kit.Frame, closed bool, closeSeq int64, closeDisc centrifuge.Disconnect) ([]*incarnation, []string) {
-	cs.mu.Lock()
-	serverSubs := append([]subReq(nil), cs.serverSubs[t]...)
-	cs.mu.Unlock()
-	var incs []*incarnation
-	var cur *incarnation
-	var problems []string
-	end := func(seq int64, kind string, code uint32) {
-		if cur != nil {
-			cur.EndSeq, cur.EndKind, cur.EndCode = seq, kind, code
-			cur = nil
-		}
-	}
-	deliver := func(p *protocol.Publication) {
-		if cur == nil {
-			return // outside an incarnation: C10's concern
-		}
-		cur.Delivered = append(cur.Delivered, p.Offset)
-		cur.IDs = append(cur.IDs, payloadID(p.Data))
-	}
-	start := func(seq int64, kind string, res *protocol.SubscribeResult, rq subReq) {
-		end(seq, "restart", 0)
-		cur = &incarnation{Conn: cs.idx, Kind: kind, StartSeq: seq, Epoch: res.Epoch, Recovered: res.Recovered, Recover: rq.recover, Filter: cs.filter}
-		if res.Recovered {
-			cur.Base = rq.offset
-		} else {
-			cur.Base = res.Offset
-			if len(res.Publications) > 0 {
-				problems = append(problems, fmt.Sprintf("conn %d: %d publications in a subscribe result with recovered=false", cs.idx, len(res.Publications)))
-			}
-		}
-		incs = append(incs, cur)
-		for _, p := range res.Publications {
-			deliver(p)
-		}
-	}
-	for _, f := range frames {
-		if f.Reply != nil && f.Reply.Id != 0 {
-			r := f.Reply
-			if rq, ok := cs.subIDs[r.Id]; ok {
-				if r.Error == nil && r.Subscribe != nil {
-					start(f.Seq, "client", r.Subscribe, rq)
-				}
-				continue
-			}
-			if cs.unsubIDs[r.Id] {
-				if r.Error == nil {
-					end(f.Seq, "unsubscribe-reply", 0)
-				}
-				continue
-			}
-			if r.Connect != nil {
-				if sr, ok := r.Connect.Subs[channel]; ok {
-					rq := subReq{}
-					if cs.connectReq != nil {
-						if q, ok := cs.connectReq.Subs[channel]; ok {
-							rq = subReq{recover: q.Recover, offset: q.Offset, epoch: q.Epoch}
-						}
-					}
-					start(f.Seq, "connect", sr, rq)
-				}
-			}
-			continue
-		}
-		p := f.Push
-		if p == nil {
-			continue
-		}
-		if p.Connect != nil {
-			if sr, ok := p.Connect.Subs[channel]; ok {
-				rq := subReq{}
-				if cs.connectReq != nil {
-					if q, ok := cs.connectReq.Subs[channel]; ok {
-						rq = subReq{recover: q.Recover, offset: q.Offset, epoch: q.Epoch}
-					}
-				}
-				start(f.Seq, "connect", sr, rq)
-			}
-			continue
-		}
-		if p.Disconnect != nil {
-			end(f.Seq, "disconnect", p.Disconnect.Code)
-			continue
-		}
-		if p.Channel != channel {
-			continue
-		}
-		switch {
-		case p.Subscribe != nil:
-			end(f.Seq, "restart", 0)
-			cur = &incarnation{Conn: cs.idx, Kind: "server", StartSeq: f.Seq, Epoch: p.Subscribe.Epoch, Base: p.Subscribe.Offset, Filter: cs.filter}
-			if len(serverSubs) > 0 {
-				cur.Recover = serverSubs[0].recover
-				serverSubs = serverSubs[1:]
-			}
-			incs = append(incs, cur)
-		case p.Unsubscribe != nil:
-			end(f.Seq, "unsubscribe-push", p.Unsubscribe.Code)
-		case p.Pub != nil:
-			deliver(p.Pub)
-		}
-	}
-	if closed {
-		end(closeSeq, "close", closeDisc.Code)
-	}
-	return incs, problems
-}
-
-func tagOf(i int) string {
-	if i%3 == 0 {
-		return "b"
-	}
-	return "a"
-}
-
-func runCase(c *kit.Case) {
-	r := c.R
-	w := kit.NewWorld(c)
-	s := &scenario{c: c, w: w, log: &pubLog{}, hookCfg: map[*centrifuge.Client]*connHooks{}}
-	s.histSize = kit.Pick(r, []int{3, 5, 10, 50})
-	s.histTTL = kit.Pick(r, []time.Duration{60 * time.Second, 60 * time.Second, 2 * time.Second})
-	faultMode := kit.Pick(r, []string{"none", "none", "drop", "dup", "hold", "mixed"})
-	faultRate := r.Range(8, 30)
-	nConn := r.Range(1, 3)
-	nPub := r.Range(1, 3)
-	useFilter := r.Chance(1, 3)
-	removeHistoryAfter := time.Duration(0)
-	if r.Chance(1, 6) {
-		removeHistoryAfter = time.Duration(r.Range(5, 80)) * time.Millisecond
-	}
-	asyncSubscribe := r.Chance(1, 3)
-
-	specs := make([]*connSpec, nConn)
-	for i := range specs {
-		cs := &connSpec{idx: i, subIDs: map[uint32]subReq{}, unsubIDs: map[uint32]bool{}}
-		cs.kind = kit.Pick(r, []string{"client", "client", "client", "connect", "server"})
-		cs.proto = kit.Pick(r, []centrifuge.ProtocolType{centrifuge.ProtocolTypeJSON, centrifuge.ProtocolTypeProtobuf})
-		cs.uni = cs.kind != "client" && r.Chance(1, 3)
-		cs.recovery = r.Chance(2, 3)
-		if useFilter && cs.kind == "client" && r.Bool() {
-			cs.filter = "a"
-		}
-		specs[i] = cs
-	}
-	byTransport := map[*kit.RecTransport]*connSpec{}
-	var btMu sync.Mutex
-
-	// fault plan: decisions drawn from a PRNG that only deliveries advance.
-	fr := kit.NewRand(c.Seed, uint64(c.Index)*7919+13)
-	var faultsOn atomic.Bool
-	faultsOn.Store(true)
-	var faultCount atomic.Int64
-
-	subOpts := func(cs *connSpec) centrifuge.SubscribeOptions {
-		o := centrifuge.SubscribeOptions{EnablePositioning: true, AllowTagsFilter: true}
-		if cs.recovery {
-			o.EnableRecovery = true
-		}
-		return o
-	}
-
-	cfg := centrifuge.Config{
-		ClientPresenceUpdateInterval:    time.Second,
-		ClientChannelPositionCheckDelay: 2 * time.Second,
-		ClientStaleCloseDelay:           time.Hour,
-	}
-	node, _ := w.NewNode(cfg, func(n *centrifuge.Node) {
-		s.fb = kit.NewFaultBroker(w, n)
-		s.fb.Plan = func(ch string, pub *centrifuge.Publication, sp centrifuge.StreamPosition) kit.FaultAction {
-			if !faultsOn.Load() || faultMode == "none" {
-				return kit.Pass
-			}
-			if fr.Intn(100) >= faultRate {
-				return kit.Pass
-			}
-			faultCount.Add(1)
-			switch faultMode {
-			case "drop":
-				return kit.Drop
-			case "dup":
-				return kit.Dup
-			case "hold":
-				return kit.Hold
-			}
-			return kit.Pick(fr, []kit.FaultAction{kit.Drop, kit.Dup, kit.Hold})
-		}
-		n.SetBroker(s.fb)
-		n.OnConnecting(func(_ context.Context, e centrifuge.ConnectEvent) (centrifuge.ConnectReply, error) {
-			rep := centrifuge.ConnectReply{Credentials: &centrifuge.Credentials{UserID: "u"}}
-			if rt, ok := e.Transport.(*kit.RecTransport); ok {
-				btMu.Lock()
-				cs := byTransport[rt]
-				btMu.Unlock()
-				if cs != nil && cs.kind == "connect" {
-					rep.Subscriptions = map[string]centrifuge.SubscribeOptions{channel: subOpts(cs)}
-				}
-			}
-			return rep, nil
-		})
-		n.OnConnect(func(cl *centrifuge.Client) {
-			var cs *connSpec
-			if rt, ok := cl.Transport().(*kit.RecTransport); ok {
-				btMu.Lock()
-				cs = byTransport[rt]
-				btMu.Unlock()
-			}
-			cl.OnSubscribe(func(e centrifuge.SubscribeEvent, cb centrifuge.SubscribeCallback) {
-				rep := centrifuge.SubscribeReply{}
-				if cs != nil {
-					rep.Options = subOpts(cs)
-				}
-				if asyncSubscribe {
-					go func() {
-						time.Sleep(3 * time.Millisecond)
-						cb(rep, nil)
-					}()
-					return
-				}
-				cb(rep, nil)
-			})
-		})
-	})
-	s.node = node
-	kit.SetHook(node, s.hook)
-
-	// a few publications before anyone subscribes
-	for i, n := 0, r.Range(0, 8); i < n; i++ {
-		s.publish("pre", tagOf(i))
-	}
-
-	var wg sync.WaitGroup
-	for p := 0; p < nPub; p++ {
-		k := r.Range(4, 25)
-		gaps := make([]time.Duration, k)
-		for i := range gaps {
-			gaps[i] = time.Duration(r.Range(1, 12)) * time.Millisecond
-		}
-		wg.Add(1)
-		go func(p int) {
-			defer wg.Done()
-			for i, g := range gaps {
-				time.Sleep(g)
-				s.publish(fmt.Sprintf("p%d", p), tagOf(i+p))
-			}
-		}(p)
-	}
-	if removeHistoryAfter > 0 {
-		wg.Add(1)
-		go func() {
-			defer wg.Done()
-			time.Sleep(removeHistoryAfter)
-			_ = node.RemoveHistory(channel)
-		}()
-	}
-
-	pWindowPoints := []string{"sub.afterMerge", "sub.beforeReply", "sub.afterReply", "sub.afterCommit"}
-	mkConn := func(cs *connSpec, salt uint64, racePoint string) *kit.Conn {
-		conn := w.NewConn(node, kit.TransportOpts{Protocol: cs.proto, Unidirectional: cs.uni})
-		btMu.Lock()
-		byTransport[conn.T] = cs
-		btMu.Unlock()
-		s.mu.Lock()
-		s.hookCfg[conn.Client] = &connHooks{idx: cs.idx, positioned: true, racePoint: racePoint, raced: map[string]bool{}, salt: salt}
-		s.mu.Unlock()
-		return conn
-	}
-	tfFor := func(cs *connSpec) *protocol.FilterNode {
-		if cs.filter == "" {
-			return nil
-		}
-		return &protocol.FilterNode{Op: "", Key: "t", Cmp: "eq", Val: cs.filter}
-	}
-	type connRun struct {
-		cs    *connSpec
-		conns []*kit.Conn
-	}
-	runs := make([]*connRun, nConn)
-	for i, cs := range specs {
-		cr := &connRun{cs: cs}
-		runs[i] = cr
-		startDelay := time.Duration(r.Range(0, 25)) * time.Millisecond
-		live1 := time.Duration(r.Range(8, 60)) * time.Millisecond
-		away := time.Duration(r.Range(5, 50)) * time.Millisecond
-		second := r.Chance(2, 3)
-		reconnect := r.Bool() // second incarnation on a new connection
-		salt1, salt2 := r.Uint64(), r.Uint64()
-		race1 := kit.Pick(r, append([]string{""}, pWindowPoints...))
-		race2 := kit.Pick(r, append([]string{""}, pWindowPoints...))
-		if cs.kind == "connect" {
-			race1 = kit.Pick(r, []string{"", "connect.beforeReply", "connect.afterReply"})
-			race2 = kit.Pick(r, []string{"", "connect.beforeReply", "connect.afterReply"})
-			reconnect = true
-		}
-		if cs.kind == "server" {
-			race1 = kit.Pick(r, []string{"", "ssub.beforeCommit", "ssub.afterCommit"})
-			race2 = kit.Pick(r, []string{"", "ssub.beforeCommit", "ssub.afterCommit"})
-		}
-		recoverStale := r.Chance(1, 8) // recover from a position further back than the last seen one
-		wg.Add(1)
-		go func() {
-			defer wg.Done()
-			time.Sleep(startDelay)
-			// last position this logical client knows about
-			var known subReq
-			subscribe := func(conn *kit.Conn, rec bool) {
-				switch cs.kind {
-				case "client":
-					req := &protocol.SubscribeRequest{Channel: channel, Tf: tfFor(cs)}
-					if rec {
-						req.Recover, req.Offset, req.Epoch = true, known.offset, known.epoch
-					}
-					id := conn.NextID()
-					cs.mu.Lock()
-					cs.subIDs[id] = subReq{recover: req.Recover, offset: req.Offset, epoch: req.Epoch}
-					cs.mu.Unlock()
-					conn.Do(&protocol.Command{Id: id, Subscribe: req})
-				case "server":
-					opts := []centrifuge.SubscribeOption{centrifuge.WithPositioning(true)}
-					if cs.recovery {
-						opts = append(opts, centrifuge.WithRecovery(true))
-						if rec {
-							opts = append(opts, centrifuge.WithRecoverSince(&centrifuge.StreamPosition{Offset: known.offset, Epoch: known.epoch}))
-						}
-					}
-					rq := subReq{}
-					if cs.recovery && rec {
-						rq = subReq{recover: true, offset: known.offset, epoch: known.epoch}
-					}
-					if err := conn.Client.Subscribe(channel, opts...); err == nil {
-						cs.mu.Lock()
-						if cs.serverSubs == nil {
-							cs.serverSubs = map[*kit.RecTransport][]subReq{}
-						}
-						cs.serverSubs[conn.T] = append(cs.serverSubs[conn.T], rq)
-						cs.mu.Unlock()
-					}
-				}
-			}
-			connect := func(conn *kit.Conn, rec bool) {
-				req := &protocol.ConnectRequest{}
-				if cs.kind == "connect" && rec && cs.recovery {
-					req.Subs = map[string]*protocol.SubscribeRequest{channel: {Recover: true, Offset: known.offset, Epoch: known.epoch}}
-				}
-				cs.mu.Lock()
-				cs.connectReq = req
-				cs.mu.Unlock()
-				if cs.uni {
-					creq := centrifuge.ConnectRequest{}
-					if len(req.Subs) > 0 {
-						creq.Subs = map[string]centrifuge.SubscribeRequest{channel: {Recover: true, Offset: known.offset, Epoch: known.epoch}}
-					}
-					conn.Client.Connect(creq)
-				} else {
-					conn.Connect(req)
-				}
-			}
-			// what the client learned from an incarnation
-			learn := func(conn *kit.Conn) {
-				incs, _ := fold(cs, conn.T, conn.T.Frames(), false, 0, centrifuge.Disconnect{})
-				if len(incs) == 0 {
-					return
-				}
-				in := incs[len(incs)-1]
-				known = subReq{recover: true, offset: in.Base, epoch: in.Epoch}
-				if n := len(in.Delivered); n > 0 {
-					known.offset = in.Delivered[n-1]
-				}
-				if recoverStale && known.offset > 2 {
-					known.offset -= 2
-				}
-			}
-			conn := mkConn(cs, salt1, race1)
-			cr.conns = append(cr.conns, conn)
-			connect(conn, false)
-			subscribe(conn, false)
-			if !second {
-				return
-			}
-			time.Sleep(live1)
-			synctestSettle()
-			learn(conn)
-			if reconnect {
-				_ = conn.CloseFn()
-			} else if cs.kind == "client" {
-				id := conn.NextID()
-				cs.mu.Lock()
-				cs.unsubIDs[id] = true
-				cs.mu.Unlock()
-				conn.Do(&protocol.Command{Id: id, Unsubscribe: &protocol.UnsubscribeRequest{Channel: channel}})
-			} else {
-				conn.Client.Unsubscribe(channel)
-			}
-			time.Sleep(away)
-			if reconnect {
-				conn = mkConn(cs, salt2, race2)
-				cr.conns = append(cr.conns, conn)
-				connect(conn, true)
-			} else {
-				s.mu.Lock()
-				s.hookCfg[conn.Client] = &connHooks{idx: cs.idx, positioned: true, racePoint: race2, raced: map[string]bool{}, salt: salt2}
-				s.mu.Unlock()
-			}
-			subscribe(conn, cs.recovery && known.recover)
-		}()
-	}
-	wg.Wait()
-	// faults stop; late deliveries arrive; then the bounded-progress horizon:
-	// position check delay (2s) + presence ticks (1s) with margin.
-	faultsOn.Store(false)
-	s.fb.Flush()
-	time.Sleep(9 * time.Second)
-	synctest.Wait()
-
-	top, topErr := node.History(channel, centrifuge.WithLimit(0))
-	recs := s.log.snapshot()
-	byPos := map[string]map[uint64]*pubRec{}
-	nOK := 0
-	for _, rec := range recs {
-		if rec.Err != "" || rec.Offset == 0 {
-			continue
-		}
-		nOK++
-		m := byPos[rec.Epoch]
-		if m == nil {
-			m = map[uint64]*pubRec{}
-			byPos[rec.Epoch] = m
-		}
-		if prev, dup := m[rec.Offset]; dup {
-			c.Violation("c01-publish-offset-assigned-twice", fmt.Sprintf("offset %d assigned to %s and %s", rec.Offset, prev.ID, rec.ID), nil)
-		}
-		m[rec.Offset] = rec
-	}
-
-	sig := fmt.Sprintf("f=%s", faultMode)
-	type incView struct {
-		Inc      *incarnation
-		Problems []string
-	}
-	var views []incView
-	for _, cr := range runs {
-		for _, conn := range cr.conns {
-			closed, disc, _ := conn.T.Closed()
-			frames := conn.T.Frames()
-			incs, problems := fold(cr.cs, conn.T, frames, closed, conn.T.CloseSeq, disc)
-			if c.Verbose {
-				for _, f := range frames {
-					c.Logf("conn %d (%s uni=%v) frame seq=%d at=%v %s", cr.cs.idx, cr.cs.kind, cr.cs.uni, f.Seq, f.At, string(f.Raw))
-				}
-				c.Logf("conn %d closed=%v disc=%v", cr.cs.idx, closed, disc)
-			}
-			for _, pmsg := range problems {
-				c.Violation("c01-publications-without-recovered-flag", pmsg, nil)
-			}
-			for _, in := range incs {
-				views = append(views, incView{Inc: in})
-				checkIncarnation(c, s, in, byPos, recs, top, topErr == nil, closed)
-				sig += fmt.Sprintf("|%s:r%v:n%d:%s%d", in.Kind, in.Recovered, bucket(len(in.Delivered)), in.EndKind, in.EndCode)
-			}
-		}
-	}
-	// window coverage: publishes whose call/return interval contains a subscription start
-	for _, v := range views {
-		for _, rec := range recs {
-			if rec.CallSeq < v.Inc.StartSeq && rec.RetSeq > v.Inc.StartSeq {
-				c.Count("publish_spanning_subscription_start", 1)
-			}
-		}
-		if len(v.Inc.Delivered) > 0 {
-			c.Count("incarnations_with_deliveries", 1)
-		}
-		if v.Inc.Recovered {
-			c.Count("recovered_incarnations", 1)
-		}
-		if v.Inc.EndCode == 2500 || v.Inc.EndCode == 3010 {
-			c.Count("insufficient_state_endings", 1)
-		}
-		c.Count("incarnations_"+v.Inc.Kind, 1)
-	}
-	c.Count("racer_publishes", int(s.racerRan.Load()))
-	c.Count("faults_injected", int(faultCount.Load()))
-	c.Count("publishes", nOK)
-	if len(views) > 0 {
-		c.Nontrivial(sig)
-	}
-	if c.Index < 48 && len(views) > 0 {
-		var sv []any
-		for _, v := range views {
-			sv = append(sv, v.Inc)
-		}
-		c.Sample(map[string]any{"fault_mode": faultMode, "history_size": s.histSize, "publishes": nOK, "incarnations": sv})
-	}
-	for _, cr := range runs {
-		for _, conn := range cr.conns {
-			_ = conn.CloseFn()
-		}
-	}
-	w.Shutdown()
-}
-
-func synctestSettle() {}
-
-func bucket(n int) int {
-	switch {
-	case n == 0:
-		return 0
-	case n < 4:
-		return 1
-	case n < 12:
-		return 2
-	}
-	return 3
-}
-
-func admitted(in *incarnation, rec *pubRec) bool {
-	return in.Filter == "" || rec.Tag == in.Filter
-}
-
-func checkIncarnation(c *kit.Case, s *scenario, in *incarnation, byPos map[string]map[uint64]*pubRec, recs []*pubRec, top centrifuge.HistoryResult, haveTop bool, closed bool) {
-	log := byPos[in.Epoch]
-	last := in.Base
-	detail := func() any {
-		return map[string]any{"incarnation": in, "stream_top": top.StreamPosition}
-	}
-	for i, off := range in.Delivered {
-		if off <= last {
-			c.Violation("c01-delivered-offset-not-increasing", fmt.Sprintf("conn %d (%s) received offset %d after %d", in.Conn, in.Kind, off, last), detail())
-			return
-		}
-		for o := last + 1; o < off; o++ {
-			rec := log[o]
-			if rec == nil {
-				c.Violation("c01-delivered-past-unknown-offset", fmt.Sprintf("conn %d (%s) received offset %d after %d but offset %d was never published in epoch %q", in.Conn, in.Kind, off, last, o, in.Epoch), detail())
-				return
-			}
-			if admitted(in, rec) {
-				cls := "c01-delivered-past-gap"
-				if in.Kind == "server" && in.Recover && i == 0 {
-					cls = "c01-server-side-recover-since-drops-recovered-publications"
-				}
-				c.Violation(cls, fmt.Sprintf("conn %d (%s, base %d, recovered=%v) received offset %d right after %d: offset %d (%s) was neither delivered nor filtered", in.Conn, in.Kind, in.Base, in.Recovered, off, last, o, rec.ID), detail())
-				return
-			}
-		}
-		rec := log[off]
-		if rec == nil || rec.ID != in.IDs[i] {
-			want := "<nothing>"
-			if rec != nil {
-				want = rec.ID
-			}
-			c.Violation("c01-wrong-payload-for-offset", fmt.Sprintf("conn %d received payload %q at offset %d epoch %q, published there: %s", in.Conn, in.IDs[i], off, in.Epoch, want), detail())
-			return
-		}
-		if !admitted(in, rec) {
-			c.Violation("c01-filtered-publication-delivered", fmt.Sprintf("conn %d received %s (tag %s) excluded by its filter", in.Conn, rec.ID, rec.Tag), detail())
-			return
-		}
-		last = off
-	}
-	// bounded progress: a subscription that is still alive after faults stopped and
-	// the position-check horizon passed must not be behind the stream top.
-	if in.EndKind == "" && !closed && haveTop {
-		if top.Epoch != in.Epoch {
-			if top.Offset > 0 {
-				c.Violation("c01-alive-subscription-on-stale-epoch", fmt.Sprintf("conn %d still subscribed with epoch %q, stream epoch %q", in.Conn, in.Epoch, top.Epoch), detail())
-			}
-			return
-		}
-		for o := last + 1; o <= top.Offset; o++ {
-			if rec := log[o]; rec != nil && admitted(in, rec) {
-				cls := "c01-alive-subscription-left-behind"
-				if in.Kind == "server" && in.Recover && len(in.Delivered) == 0 {
-					cls = "c01-server-side-recover-since-drops-recovered-publications"
-				}
-				c.Violation(cls, fmt.Sprintf("conn %d (%s) is still subscribed after the check horizon but never received offset %d (%s); last received %d, stream top %d", in.Conn, in.Kind, o, rec.ID, last, top.Offset), detail())
-				return
-			}
-		}
-		c.Count("alive_at_top", 1)
-	}
-}
 
 func TestC01(t *testing.T) {
 	kit.Main(t, kit.Spec{
@@ -792,6 +23,6 @@ func TestC01(t *testing.T) {
 		},
 		Cases:           map[string]int{"quick": 1600, "thorough": 32000},
 		RequireCounters: []string{"publish_spanning_subscription_start", "recovered_incarnations", "insufficient_state_endings", "racer_publishes", "faults_injected", "alive_at_top"},
-		Run:             runCase,
+		Run:             func(c *kit.Case) { posdeliv.RunCase(c, posdeliv.Options{Prefix: "c01"}) },
 	})
 }
